@@ -142,17 +142,23 @@ class Scen:
         args.append(lit(payload(r)))
         if self.raw: return   # ipv4::datagram has no raw option
         self.emit('ipv4::datagram(%s)' % ', '.join(args), [dict(src=s, dst=d, l4=None, eth='ip', **o)])
-    def frag(self):
+    def frag(self, big=None):
         r = self.r; s, d = r.below(2 ** 32), r.below(2 ** 32)
         o = dict(id=r.below(65536), evil=r.chance(1, 3), df=r.chance(1, 3), ttl=r.below(256), proto=r.choice([17, 6, r.below(256)]))
-        b = payload(r, [0, 1, 8, 9, 24, 100, 1480])
+        if big is not None or r.chance(1, 4):
+            # contexts of 8 KiB and more: lengths in 8-byte blocks no longer fit 13 bits, byte lengths need more than 16
+            pexpr, b = self.bigpayload(big if big is not None else r.choice([8191, 8192, 8193, 8200, 16384, 30001, 65000]))
+        else:
+            b = payload(r, [0, 1, 8, 9, 24, 100, 1480]); pexpr = lit(b)
         self.n += 1; f = 'g%d' % self.n
-        self.decl.append('let %s = ipv4::frag(%s, %s, id: %d, evil: %s, df: %s, ttl: %d, proto: %d, %s);' % (f, ip(s), ip(d), o['id'], str(o['evil']).lower(), str(o['df']).lower(), o['ttl'], o['proto'], lit(b)))
+        self.decl.append('let %s = ipv4::frag(%s, %s, id: %d, evil: %s, df: %s, ttl: %d, proto: %d, %s);' % (f, ip(s), ip(d), o['id'], str(o['evil']).lower(), str(o['df']).lower(), o['ttl'], o['proto'], pexpr))
         n = len(b)
-        for _ in range(1 + r.below(3)):
-            k = r.below(3)
+        for j in range(4 if big is not None else 1 + r.below(3)):
+            k = r.below(3) if n < 8000 else r.below(2)
+            if big is not None: k = [1, 0, 0, 2][j]
             if k == 0:
                 off = r.below(n // 8 + 1); ln = r.below(n // 8 + 3); e = min(8 * (off + ln), n)
+                if big is not None: ln = [0, 8191, 8192][j] if big >= 65000 else n // 8 + j; off = j; e = min(8 * (off + ln), n)
                 self.emit('%s.fragment(%d, %d%s)' % (f, off, ln, self.rawarg()), [dict(src=s, dst=d, off=off, mf=e < n, l4=None, eth='ip', **o)])
             elif k == 1:
                 off = r.below(n // 8 + 1)
@@ -197,7 +203,7 @@ def build(r, raw, kinds=None, quick=True):
     elif k == 'dnshost': s.dnshost()
     elif k == 'icmp': s.icmp(2 + r.below(5))
     elif k == 'datagram': s.datagram(); s.datagram()
-    elif k == 'frag': s.frag()
+    elif k == 'frag': s.frag(big=r.choice([8192, 8200, 16385, 65000]) if r.chance(1, 5) else None)
     elif k == 'sized': s.sized(r.choice([28, 29, 1500, 65535, 65534, 32768] if not quick else [28, 29, 1500, 9000, 65535]))
     else:
         w = s.tunnel_wrap(r.choice(['vxlan', 'gre', 'erspan1', 'erspan2']))
@@ -228,9 +234,10 @@ def judge(c, frame, raw, e, which, rep, depth=0):
         if fits and f['ipok'] != 'true':
             c.violation('ip:%s:invalid:%s' % (tag, e.get('tunnel') or ('l4-' + str(e['l4'][0] if isinstance(e['l4'], tuple) else e['l4']))),
                         'Spec.ipv4Ok is false (version/IHL, total length or header checksum) for proto %s' % f['proto'], rep)
-        want = dict(src=e['src'], dst=e['dst'], proto=e['proto'], id=e['id'], ttl=e['ttl'], off=e['off'])
+        if not fits: c.count('oversize-datagram-not-judged')
+        want = dict(src=e['src'], dst=e['dst'], proto=e['proto'], id=e['id'], ttl=e['ttl'], off=e['off']) if fits else {}
         bad = [k for k, v in want.items() if f[k] != str(v)]
-        bad += [k for k in ('evil', 'df', 'mf') if f[k] != str(bool(e[k])).lower()]
+        bad += [k for k in ('evil', 'df', 'mf') if fits and f[k] != str(bool(e[k])).lower()]
         if 'tot' in e and f['len'] != str(e['tot']): bad.append('len')
         if bad:
             c.violation('ip:%s:fields:%s' % (tag, ','.join(bad)), 'IPv4 header fields differ from what the script asked: %s' % {k: f.get(k) for k in bad}, rep)
